@@ -12,6 +12,7 @@ const char * vf_harness_name = "c20_pulsenode";
 typedef vf::BS BS;
 #define FAIL(...) vf::Fail(__VA_ARGS__)
 static const uint64 NEVER = MUSCLE_TIME_NEVER;
+static bool g_allowGptMut = true; static uint64_t g_gptMutations = 0; static bool IsAncestorOf(int a, int b);
 static std::vector<bool> g_touched; static uint64_t g_cbMut = 0; static void CallbackMutations(int self);
 struct TNode;
 static std::vector<TNode *> g_nodes; static BS * g_bs; static uint64 g_now; static std::vector<int> g_pulsedThisRound; static std::vector<int> g_askedThisRound;
@@ -30,6 +31,17 @@ struct TNode : public PulseNode {
       const uint8_t c = g_bs->u8(); uint64 t;
       switch(c%5) {case 0: t = NEVER; break; case 1: t = (g_now > 5) ? g_now-5 : 0; break; case 2: t = g_now; break; case 3: t = g_now+1+(c/5)%20; break; default: t = g_now+100+(c/5); break;}
       valid = true; req = t; (void) args;
+      // a node that answers the question may re-arm what hangs below it at the same time (a composite timer and its sub-timers): it takes back the time of one of its own
+      // children, or adopts a detached node.  Both must still be asked before the wait that follows.
+      if ((g_allowGptMut)&&((c/5)%13 == 12))
+      {
+         const int N = (int)g_nodes.size(); const uint8_t k = g_bs->u8(); const int other = 1+(k>>1)%(N-1); TNode * o = g_nodes[other];
+         if ((o->alive)&&(other != id))
+         {
+            if ((k&1)&&(o->parent == id)) {o->InvalidatePulseTime(true); o->valid = false; g_gptMutations++;}
+            else if (((k&1) == 0)&&(o->parent == -1)&&(IsAncestorOf(other, id) == false)) {PutPulseChild(o); o->parent = id; o->valid = false; g_gptMutations++;}
+         }
+      }
       return t;
    }
    virtual void Pulse(const PulseArgs & args)
@@ -47,6 +59,7 @@ struct TNode : public PulseNode {
 };
 static bool IsAncestor(int a, int b);
 static bool IsAttached(int i) {while(true) {TNode * n = g_nodes[i]; if (!n->alive) return false; if (n->parent == -2) return true; if (n->parent == -1) return false; i = n->parent;}}
+static bool IsAncestorOf(int a, int b) {return IsAncestor(a, b);}
 static bool IsAncestor(int a, int b) {/* is a an ancestor of (or equal to) b */ while(b >= 0) {if (a == b) return true; b = g_nodes[b]->parent;} return false;}
 static std::set<int> g_mayBeOnStack; static uint64_t g_cbDestroys = 0; static bool g_allowCbMut = true; static uint64_t g_mutThisRound = 0, g_deferrals = 0, g_rounds = 0, g_roundsWithMut = 0;
 static void CallbackMutations(int self)
@@ -80,7 +93,7 @@ static int Depth(int i) {int d = 0; while((i >= 0)&&(g_nodes[i]->parent >= 0)) {
 extern "C" int vf_run_case(const uint8_t * data, size_t size)
 {
    static CompleteSetupSystem * css = NULL; if (css == NULL) css = new CompleteSetupSystem;
-   BS bs(data, size); g_bs = &bs; g_now = 1000; g_allowCbMut = true; g_cbDestroys = 0;
+   BS bs(data, size); g_bs = &bs; g_now = 1000; g_allowCbMut = true; g_cbDestroys = 0; g_allowGptMut = true; g_gptMutations = 0;
    for (size_t i=0;i<g_nodes.size();i++) delete g_nodes[i]; g_nodes.clear();
    uint64_t h = 11; bool multiDepthPulse = false, cbMutCase = false, deferredCase = false, invalidatedBeforePulse = false; uint32 cycles = 0, totalPulses = 0; std::string trace; const bool wantTrace = vf::WantSample();
    Mgr mgr; const int N = 7; for (int i=0;i<N;i++) g_nodes.push_back(new TNode(i)); g_nodes[0]->parent = -2;
@@ -120,7 +133,7 @@ extern "C" int vf_run_case(const uint8_t * data, size_t size)
             if (deferred.size() > 0)
             {
                // a callback changed the tree: the library may defer due nodes to the next cycle, but then it must not let the loop wait, and a quiet next cycle must fire them all
-               g_deferrals++; deferredCase = true; g_allowCbMut = false; g_askedThisRound.clear();
+               g_deferrals++; deferredCase = true; g_allowCbMut = false; g_allowGptMut = false; g_askedThisRound.clear();
                const uint64 m2 = mgr.GetMin(*g_nodes[0], g_now);
                uint64 expect2 = NEVER; for (int i=0;i<N;i++) if (IsAttached(i)) {TNode * n = g_nodes[i]; if (!n->valid) FAIL("attached node %d was not asked before the follow-up wait", i); if (n->req < expect2) expect2 = n->req;}
                if (m2 != expect2) FAIL("follow-up wake-up %llu != min requested %llu", (unsigned long long)m2, (unsigned long long)expect2);
@@ -128,7 +141,7 @@ extern "C" int vf_run_case(const uint8_t * data, size_t size)
                g_pulsedThisRound.clear(); mgr.DoPulse(*g_nodes[0], g_now);
                std::set<int> got2(g_pulsedThisRound.begin(), g_pulsedThisRound.end());
                for (size_t d=0; d<deferred.size(); d++) if (got2.count(deferred[d]) == 0) FAIL("deferred node %d did not fire in the quiet follow-up cycle", deferred[d]);
-               g_allowCbMut = true;
+               g_allowCbMut = true; g_allowGptMut = true;
             }
          }
          break;
@@ -138,7 +151,7 @@ extern "C" int vf_run_case(const uint8_t * data, size_t size)
    }
    vf::Count("pulse_cycles", cycles); vf::Count("callbacks_fired", totalPulses);
    if (multiDepthPulse) vf::Count("case_pulse_fired_nodes_at_two_depths");
-   if (cbMutCase) vf::Count("case_with_callback_mutation"); if (g_cbDestroys) vf::Count("case_callback_destroyed_a_node_off_the_call_stack"); if (invalidatedBeforePulse) vf::Count("case_node_invalidated_between_wait_and_pulse");
+   if (cbMutCase) vf::Count("case_with_callback_mutation"); if (g_cbDestroys) vf::Count("case_callback_destroyed_a_node_off_the_call_stack"); if (invalidatedBeforePulse) vf::Count("case_node_invalidated_between_wait_and_pulse"); if (g_gptMutations) vf::Count("case_time_question_answered_by_re_arming_children");
    if (deferredCase) vf::Count("case_with_deferred_due_node");
    if ((multiDepthPulse)||(cbMutCase)) {vf::NonTrivial(h); if (wantTrace) vf::Sample(trace);}
    return 0;
